@@ -96,6 +96,7 @@ type Net struct {
 	OnEvent func(n *Net, ev *Event, d *Delivery)
 	// UseParsed delivers the ParsedMessage object instead of re-parsing wire bytes
 	Panics []string
+	HeldXi []*big.Int // resharing nets built for fault injection: the old members' share objects (erased = set to zero)
 	// Delivered logs every delivery made (for transcript re-judgement)
 	Delivered []*Delivery
 	// StopOnError: a party that has reported an error receives nothing more (the caller's contract:
